@@ -194,6 +194,16 @@ class Driver:
         return out
 
 
+class NoDriver:
+    """stands in when the model driver does not build (e.g. the regenerated tables no longer
+    type-check): every model answer is an error string, so ties are reported as broken while the
+    comparison of the implementation with the oracles still runs"""
+    unavailable = True
+
+    def ask(self, lines, timeout=0):
+        return ["(err model-driver-unavailable)"] * len(lines)
+
+
 def parse_failures(s):
     """'((kind detail) (kind detail))' -> list of (kind, detail)"""
     return re.findall(r"\((\S+) ([^()]*)\)", s)
